@@ -2,6 +2,7 @@ import Ogorek.Encoder
 import Ogorek.Opcodes
 import Ogorek.Generated.Facts
 import Ogorek.Lemmas.ScanEnc
+import Ogorek.Lemmas.FmtG
 
 /-!
   C12 — Encoder uses only opcodes of the requested protocol and emits one framed pickle.
@@ -22,12 +23,13 @@ theorem C12_facts : Generated.highestProtocol = 5 := by decide
     the independent opcode table of `Opcodes.lean`, is one framed pickle — it begins with `PROTO p`
     exactly when p ≥ 2 and contains no other PROTO, every opcode was introduced in a protocol ≤ p,
     the stack discipline holds at every opcode, and the single STOP at the very end finds exactly one
-    object.  Hypotheses: LF is not printable in the IsPrint table (regenerated fact, `C03_isprint_lf`),
-    and at protocol 0 the `%g` text of each float64 in the value holds no newline (`FloatsLF`; a
-    property of strconv that is not proved here). The two text codecs' outputs are proved newline-free. -/
+    object.  Only hypothesis besides sizes: LF is not printable in the IsPrint table (a regenerated fact,
+    `C03_isprint_lf`). The text lines of protocol 0 are proved newline-free: both codecs' outputs
+    (`pyquote_no_lf`, `rue_no_lf`) and the `%g` text of every float64 (`fmtG_no_lf`). -/
 theorem C12_conforms (ip : IsPrint) (hip : ip 10 = false) (c : ECfg) (v : GoVal) (hp0 : 0 ≤ c.proto) (hp5 : c.proto ≤ 5)
-    (hs : sizesOK v = true) (hf : FloatsLF c (floatsOf v)) (he : (encodeTop ip c none v).err = none) :
+    (hs : sizesOK v = true) (he : (encodeTop ip c none v).err = none) :
     conforms c.proto.toNat (flat (encodeTop ip c none v)) = .ok () := by
+  have hf : FloatsLF c (floatsOf v) := fun f _ => Or.inr (fmtG_no_lf f)
   have hrange : (0 ≤ c.proto ∧ c.proto ≤ 5) := ⟨hp0, hp5⟩
   have hdr_err : (if c.proto ≥ 2 then emit [0x80, UInt8.ofNat c.proto.toNat] else Out.nil).err = none := by
     split <;> rfl
@@ -90,10 +92,10 @@ theorem C12_conforms (ip : IsPrint) (hip : ip 10 = false) (c : ECfg) (v : GoVal)
     simp only [h2', decide_false, Bool.false_and, Bool.false_eq_true, if_false, List.isEmpty_nil, Bool.not_true, hp, decide_true,
       Bool.true_and, bne_self_eq_false, show ¬ (0 > 1) by omega, hm']
 
-/-- From protocol 1 on no text form is used: no hypothesis about floats. -/
+/-- The same restricted to protocols 1–5 (kept under its earlier name). -/
 theorem C12_conforms_bin (ip : IsPrint) (hip : ip 10 = false) (c : ECfg) (v : GoVal) (hp1 : 1 ≤ c.proto) (hp5 : c.proto ≤ 5)
     (hs : sizesOK v = true) (he : (encodeTop ip c none v).err = none) :
     conforms c.proto.toNat (flat (encodeTop ip c none v)) = .ok () :=
-  C12_conforms ip hip c v (by omega) hp5 hs (fun _ _ => Or.inl hp1) he
+  C12_conforms ip hip c v (by omega) hp5 hs he
 
 end Ogorek
